@@ -279,7 +279,30 @@ NEAR_MISS = ['', 'None', 'NONE', 'nONE', 'none ', ' none', 'non', 'nonee', 'hs25
              'Ed25519', 'PS', 'ps512', 'PS5120', 'HS1', 'foo', 'A', 'HS256,RS256', 'none,HS256', 'RS256\tx', 'ES512 ', 'ES5121']
 
 
-def alg_name_tables(prog, env):
+def generated_near_misses():
+    """systematic near misses of every RFC 7518 name: one character deleted, doubled, case-flipped, replaced; blank/NUL-adjacent
+    characters prepended/appended; every proper prefix; every name concatenated with another"""
+    from props.common import ALGS
+    out = set()
+    names = list(ALGS)
+    for nm in names:
+        for i in range(len(nm)):
+            out.add(nm[:i] + nm[i + 1:])
+            out.add(nm[:i] + nm[i] * 2 + nm[i + 1:])
+            out.add(nm[:i] + nm[i].swapcase() + nm[i + 1:])
+            out.add(nm[:i] + ('0' if nm[i] != '0' else '1') + nm[i + 1:])
+            out.add(nm[:i])
+        for c in (' ', '\t', '\n', '.', '=', 'x', '\x7f', '\xe9'):
+            out.add(nm + c)
+            out.add(c + nm)
+        out.add(nm.lower())
+        out.add(nm.upper())
+        for other in names[:4]:
+            out.add(nm + other)
+    return sorted(x for x in out if x not in ALGS)
+
+
+def alg_name_tables(prog, env, thorough=False):
     """jwt_alg_str over every enumerator (+INVAL, +1) and jwt_str_alg over the RFC 7518 names and near misses,
     interpreted concretely (the comparison loop of jwt_strcmp is unrolled on the concrete operands)."""
     from props.common import ALGS
@@ -294,7 +317,8 @@ def alg_name_tables(prog, env):
         to_str[v] = outs
     to_alg = {}
     callees = set()
-    for name in list(ALGS) + NEAR_MISS:
+    near = NEAR_MISS + (generated_near_misses() if thorough else [])
+    for name in list(ALGS) + near:
         it = Interp(prog, 'libjwt/jwt.c', model=model)
         r = it.run('jwt_str_alg', [Str(name)])
         if any(not isinstance(rv, Int) for s, rv in r):
@@ -311,7 +335,7 @@ def alg_name_tables(prog, env):
     it = Interp(prog, 'libjwt/jwt.c', model=model)
     r = it.run('jwt_str_alg', [NULL])
     to_alg[None] = set(rv.v if isinstance(rv, Int) else repr(rv) for s, rv in r)
-    return to_str, to_alg, callees
+    return to_str, to_alg, callees, near
 
 
 JSON_TYPE_NAMES = ['JSON_OBJECT', 'JSON_ARRAY', 'JSON_STRING', 'JSON_INTEGER', 'JSON_REAL', 'JSON_TRUE', 'JSON_FALSE', 'JSON_NULL']
